@@ -116,6 +116,57 @@ func (w *World) ApplySC(a *SCAction) bool {
 		for s := uint32(0); s < w.Cfg.NumShards; s++ {
 			w.control(s, vmcommon.SystemAccountAddress, fn, [][]byte{t.ID}, "")
 		}
+	case "drop":
+		caller := unhx(a.Addr2)
+		if len(caller) != 32 || ShardOf(caller, w.Cfg.NumShards) != vmcommon.MetachainShardId {
+			return false
+		}
+		amt, ok := new(big.Int).SetString(a.Amount, 10)
+		if !ok || amt.Sign() <= 0 {
+			return false
+		}
+		payload := unhx(a.Payload)
+		var args [][]byte
+		switch a.Fn {
+		case spec.FnESDTTransfer:
+			if a.Nonce != 0 {
+				return false
+			}
+			args = [][]byte{t.ID, amt.Bytes()}
+		case spec.FnESDTNFTTransfer:
+			if a.Nonce == 0 || len(payload) == 0 {
+				return false
+			}
+			args = [][]byte{t.ID, spec.NonceBytes(a.Nonce), amt.Bytes(), payload}
+		case spec.FnMultiTransfer:
+			if a.Nonce == 0 {
+				args = [][]byte{{1}, t.ID, {0}, amt.Bytes()}
+			} else {
+				if len(payload) == 0 {
+					return false
+				}
+				args = [][]byte{{1}, t.ID, spec.NonceBytes(a.Nonce), payload}
+			}
+		default:
+			return false
+		}
+		if a.Twin {
+			if a.Nonce == 0 || spec.Balance(spec.ShardState(w.Nodes[shard].Store.Accts), addr, t.ID, a.Nonce).Sign() == 0 {
+				return false
+			}
+		}
+		m := w.control(shard, addr, a.Fn, args, "")
+		m.Snd = append([]byte{}, caller...)
+		m.Mint = true
+		m.ReturnErr = a.ReturnErr
+		m.CallType = vmcommon.CallType(a.CallType)
+		m.Carries = []spec.Carry{{Token: t.ID, Nonce: a.Nonce, Amount: amt}}
+		w.Stats.Probes["protocol-credit-message"]++
+		if a.Twin {
+			w.Pool = w.Pool[:len(w.Pool)-1]
+			w.Stats.Probes["different-hash-arrival"]++
+			w.Run(m, nil)
+		}
 	case "handover":
 		to := unhx(a.Addr2)
 		if t.Creator == "" || t.Pending || t.Lost || string(addr) != t.Creator || bytes.Equal(to, addr) || len(to) != 32 ||
